@@ -498,8 +498,8 @@ def expand(template_path, std=True):
                     mm = re.match(r"//@implicit-drop <<<(.*)>>>\s*$", t)
                     appends.append(mm.group(1))
                 elif t.startswith("//@closure "):
-                    mm = re.match(r"//@closure <<<(.*)>>> => <<<(.*)>>>\s*$", t)
-                    closures.append((mm.group(1), mm.group(2)))
+                    mm = re.match(r"//@closure <<<(.*?)>>> => <<<(.*?)>>>(?: let <<<(.*)>>>)?\s*$", t)
+                    closures.append((mm.group(1), mm.group(2), mm.group(3) or ""))
                 elif t.startswith("//@invariant "):
                     k = int(t.split()[1])
                     inv = []
@@ -588,7 +588,7 @@ def expand(template_path, std=True):
                 assert e.endswith("}")
                 body = e[:-1] + "\n".join(appends) + "\n}"
                 g.log.rule("Rdrop: the implicit drop of a by-value `self: Unimock` at the end of the fn is made explicit")
-            for (a, b) in closures:
+            for (a, b, clet) in closures:
                 if body.count(a) != 1:
                     raise Undecided("lost anchor: closure <<<%s>>> matched %d times in fn %s" % (a, body.count(a), name))
                 p = body.index(a)
@@ -612,7 +612,9 @@ def expand(template_path, std=True):
                         break
                     k += 1
                 cbody = body[q:k].strip()
-                body = body[:p] + b + " { " + cbody + " }" + body[k:]
+                body = body[:p] + b + " { " + clet + " " + cbody + " }" + body[k:]
+                if clet:
+                    g.log.rule("Rclosure: a closure parameter pattern becomes a variable + `let <pattern> = <variable>;` (Verus closures take variables only)")
                 g.log.rule("Rclosure: closure given typed parameters and an `ensures`; its body text is unchanged")
             if invariants:
                 body = splice_invariants(body, invariants, name)
